@@ -80,6 +80,16 @@ fn main() {
     std::process::exit(code);
 }
 
+/// Per-run watchdog. The two 4 GiB arena runs of C04 commit and zero 4 GiB each: on a loaded machine that alone
+/// can take longer than the ordinary watchdog, and slowness is not a finding.
+fn watchdog_for(prop: &str, run: u64, default_s: f64) -> f64 {
+    if prop == "C04" && (run < scen::HUGE_RUNS || run == u64::MAX) {
+        default_s.max(900.0)
+    } else {
+        default_s
+    }
+}
+
 fn seed_from_env(args: &[String]) -> u64 {
     arg_val(args, "--seed")
         .or_else(|| std::env::var("VERIF_SEED").ok())
@@ -380,7 +390,7 @@ fn cmd_check(args: &[String]) -> i32 {
                         slots[i].last_run = now_run;
                         slots[i].last_change = Instant::now();
                         None
-                    } else if slots[i].last_change.elapsed().as_secs_f64() > plan.watchdog_s {
+                    } else if slots[i].last_change.elapsed().as_secs_f64() > watchdog_for(&prop, now_run, plan.watchdog_s) {
                         let _ = slots[i].child.kill();
                         Some((slots[i].child.wait().unwrap(), true))
                     } else {
@@ -480,7 +490,7 @@ fn cmd_check(args: &[String]) -> i32 {
                     .stderr(Stdio::null())
                     .spawn()
                     .ok()
-                    .and_then(|c| wait_output_timeout(c, plan.watchdog_s + 5.0));
+                    .and_then(|c| wait_output_timeout(c, watchdog_for(&prop, run, plan.watchdog_s) + 5.0));
                 let first_other: Option<String> = strict.as_ref().and_then(|o| {
                     let t = String::from_utf8_lossy(o);
                     let sigs = t.split('[').nth(1).map(|x| x.split(']').next().unwrap_or("").to_string()).unwrap_or_default();
@@ -571,7 +581,7 @@ fn cmd_check(args: &[String]) -> i32 {
                 }
             }
         }
-        let conf = run_timeout(Command::new(&exe).args(["replay", &path]).stdout(Stdio::null()), plan.watchdog_s + 10.0);
+        let conf = run_timeout(Command::new(&exe).args(["replay", &path]).stdout(Stdio::null()), watchdog_for(&prop, *run, plan.watchdog_s) + 10.0);
         let reproduced = match conf {
             None => sig.contains("|watchdog|"), // timed out again
             Some(s) => s.code() == Some(1) || (sig.contains("|process_killed|") && { use std::os::unix::process::ExitStatusExt; s.signal().is_some() }),
